@@ -3,6 +3,7 @@
 import json, os, re, subprocess, sys
 HERE = os.path.dirname(os.path.dirname(os.path.abspath(__file__)))
 ONLY = {  # restrict to the jobs of the touched function where the full property check is long
+ "C03-c03c-1": "hwloc_bitmap_compare(__q.*)?$", "C03-c03c-2": "hwloc_bitmap_or$", "C03-c03c-3": "nr_ulongs", "C03-c03c-4": "hwloc_bitmap_set_range",
  "C03-c03a-1": "andnot", "C03-c03a-2": "clr_range", "C03-c03a-3": "isincluded", "C03-c03b-1": "compare_first", "C03-c03b-2": "next_unset", "C03-c03b-3": "xor",
 }
 NEEDS = {}
@@ -14,6 +15,8 @@ def main():
         if not os.path.isdir(sd) or (only_ids and d not in only_ids):
             continue
         prop = d.split("-")[0]
+        if d == "C06-a-4":
+            prop = "C05"       # the base64 decoder: checked under C05 (and C06)
         cmd = [os.path.join(HERE, "tools", "try_seed.sh"), sd, prop] + ([ONLY[d]] if d in ONLY else [])
         p = subprocess.run(cmd, capture_output=True, text=True)
         out = p.stdout
